@@ -411,6 +411,18 @@ fn run_once(case: &C13sCase, slow: u32, delays: bool) -> CaseResult {
                 }
                 Ok(None) => break,
                 Err(_) => {
+                    // nothing has happened for a while: if the last thing the task was told is
+                    // "disable", it must have said Disabled by now
+                    if !end_requested && settings.last() == Some(&false) {
+                        let last = states.last().map(|s| name(s));
+                        if last.is_some() && last != Some("Disabled") {
+                            return Err(format!(
+                                "disable() was the last setting sent and nothing else is pending, but {:?} after it the listener has not been told Disabled (last state {})",
+                                gate_wait,
+                                last.unwrap_or("?")
+                            ));
+                        }
+                    }
                     if end_requested {
                         return Err(format!(
                             "task did not report Shutdown within {:?} after shutdown / dropping all handles (last state {:?})",
